@@ -51,6 +51,23 @@ def _call(name, basis, G0, mk):
             for j in range(3):
                 out[:, :, i, j] = M[:, :, idx[(min(i, j), max(i, j))]]
         return out
+    if name == "d3":
+        from gbasis.evals.eval_deriv import evaluate_deriv_basis
+        cache = {}
+        out = None
+        for i in range(3):
+            for j in range(3):
+                for k in range(3):
+                    o = [0, 0, 0]
+                    for ax in (i, j, k):
+                        o[ax] += 1
+                    key = tuple(o)
+                    if key not in cache:
+                        cache[key] = np.asarray(evaluate_deriv_basis(basis, mk.array([G0["P"]]), np.array(o))).view(np.ndarray)[:, 0]
+                    if out is None:
+                        out = np.empty((len(cache[key]), 3, 3, 3), dtype=object)
+                    out[:, i, j, k] = cache[key]
+        return out
     if name == "momentum":
         from gbasis.integrals.momentum import momentum_integral
         return momentum_integral(basis)
@@ -73,9 +90,9 @@ def _call(name, basis, G0, mk):
     raise KeyError(name)
 
 
-KIND = {"quadrupole": "tensor2", "overlap": "scalar", "kinetic": "scalar", "dipole": "vector", "momentum": "vector", "angmom": "pseudo",
+KIND = {"d3": "tensor3", "quadrupole": "tensor2", "overlap": "scalar", "kinetic": "scalar", "dipole": "vector", "momentum": "vector", "angmom": "pseudo",
         "point_charge": "scalar", "eri": "scalar", "eval": "scalar", "grad": "vector"}
-NIX = {"quadrupole": 2, "overlap": 2, "kinetic": 2, "dipole": 2, "momentum": 2, "angmom": 2, "point_charge": 2, "eri": 4, "eval": 1, "grad": 1}
+NIX = {"d3": 1, "quadrupole": 2, "overlap": 2, "kinetic": 2, "dipole": 2, "momentum": 2, "angmom": 2, "point_charge": 2, "eri": 4, "eval": 1, "grad": 1}
 
 
 def rep_matrix(ops, l, R):
@@ -214,6 +231,10 @@ class Motion(Case):
         for ax in range(NIX[mod]):
             A = np.moveaxis(np.tensordot(D, A, (1, ax)), 0, ax)
         kind = KIND[mod]
+        if kind == "tensor3":
+            Rm = np.array(I["R"], dtype=object)
+            for _ in range(3):
+                A = np.tensordot(A, Rm, (A.ndim - 3, 1))
         if kind == "tensor2":
             Rm = np.array(I["R"], dtype=object)
             A = np.tensordot(A, Rm, (A.ndim - 2, 1))   # (..., j, i')
@@ -291,6 +312,13 @@ def cases(tier, seed=0):
     for idx in (1, 10, 21, 30, 47):
         perm, signs = SIGNED_PERMS[idx]
         out.append(Motion(module="quadrupole", motion=["perm", list(perm), list(signs)], **sp))
+    # third derivatives of the basis functions as a rank-3 tensor
+    out.append(Motion(module="d3", motion=["trans"], **sp))
+    for axis in range(3):
+        out.append(Motion(module="d3", motion=["rotq", axis, 1, 2 + axis], **sp))
+    out.append(Motion(module="d3", motion=["rot", 2], ls=[0, 1], types="cc", Ks=[1, 1], Ms=[1, 1]))
+    perm, signs = SIGNED_PERMS[13]
+    out.append(Motion(module="d3", motion=["perm", list(perm), list(signs)], **sp))
     out.append(Motion(module="overlap", motion=["trans"], **mix))
     # all 48 signed axis permutations
     for idx, (perm, signs) in enumerate(SIGNED_PERMS):
